@@ -31,7 +31,7 @@ func newGen(p *Prog, fn *ssa.Function, con *Contract) *Gen {
 	g := &Gen{p: p, fn: fn, con: con, env: map[ssa.Value]*SV{}, layouts: map[string][]Comp{}, famSort: map[string]string{},
 		declFam: map[string]bool{}, typeTag: map[string]int{}, counts: map[string]int{}, specDecl: map[string]bool{},
 		strConsts: map[string]Val{}, closures: map[*ssa.MakeClosure]*ssa.MakeClosure{}, rangeIters: map[*ssa.Range]Val{},
-		pendingHavoc: map[string]bool{}, famLeaf: map[string]IntInfo{}, famDeclLine: map[string]int{}, axDone: map[string]bool{}, cellAddr: map[*ssa.Alloc]*Addr{}}
+		pendingHavoc: map[string]bool{}, famLeaf: map[string]IntInfo{}, famDeclLine: map[string]int{}, axDone: map[string]bool{}, specHeap: map[string]*heapParams{}, cellAddr: map[*ssa.Alloc]*Addr{}}
 	if con != nil {
 		g.mode = parseMode(con.Arith)
 	}
@@ -285,11 +285,20 @@ func report(p *Prog, prop, tier string, seed int, results []*FuncResult, loadT, 
 			continue
 		}
 		ok := true
+		// opt dead_returns=N: up to N return statements of the function are known to be dead under its
+		// precondition (defensive checks); their reachability guards are not vacuity failures
+		deadOK := 0
+		if fr.Con != nil {
+			deadOK, _ = strconv.Atoi(fr.Con.Opts["dead_returns"])
+		}
 		for _, o := range fr.Obls {
 			solverTime += o.Time
 			if o.Expect == "sat" {
 				covers++
-				if o.Status == "unsat" {
+				if o.Status == "unsat" && o.Kind == "cover.return" && deadOK > 0 {
+					deadOK--
+					coversOK++
+				} else if o.Status == "unsat" {
 					vacuous = append(vacuous, o)
 					ok = false
 				} else {
